@@ -23,6 +23,7 @@ type Plan struct {
 	Panic    string `json:"panic,omitempty"`     // panic payload kind: string | error | nilmap | nilptr | custom | index
 	Size     int    `json:"size,omitempty"`      // pad the result to this many bytes
 	Reverse  int    `json:"reverse,omitempty"`   // reverse calls to make before returning
+	RevBoom  bool   `json:"rev_boom,omitempty"`  // additionally reverse-call a client-side handler that panics
 	ReactMs  int    `json:"react_ms,omitempty"`  // time the handler keeps running after its ctx was cancelled
 
 	// subscriptions
@@ -188,6 +189,7 @@ type RevClient struct {
 	Ident func(ctx context.Context, tok string) (string, error)
 	Alias func(ctx context.Context, tok string) (string, error) `rpc_method:"rev.alias"`
 	Slow  func(ctx context.Context, tok string) (string, error)
+	Boom  func(ctx context.Context, tok string) (string, error)
 }
 
 type TokAPI struct{ W *World }
@@ -225,6 +227,18 @@ func (a *TokAPI) body(ctx context.Context, tok string, plan Plan) (Result, error
 			continue
 		}
 		revs = append(revs, id)
+	}
+	if plan.RevBoom {
+		if rc, ok := jsonrpc.ExtractReverseClient[RevClient](ctx); ok {
+			_, err := rc.Boom(ctx, tok)
+			if err == nil {
+				revs = append(revs, "!boom-no-error")
+			} else {
+				revs = append(revs, "boom:"+err.Error())
+			}
+		} else {
+			revs = append(revs, "!absent")
+		}
 	}
 	switch plan.Panic {
 	case "":
@@ -362,6 +376,11 @@ func (h *RevHandler) Ident(ctx context.Context, tok string) (string, error) {
 
 func (h *RevHandler) Aliased(ctx context.Context, tok string) (string, error) {
 	return h.ID + "/alias/" + tok, nil
+}
+
+// Boom panics inside a client-side handler.
+func (h *RevHandler) Boom(ctx context.Context, tok string) (string, error) {
+	panic("client-side boom " + tok)
 }
 
 func (h *RevHandler) Slow(ctx context.Context, tok string) (string, error) {
